@@ -22,17 +22,20 @@ BIAS = _Bias({"qerr_p": 0.15, "qnojobs_p": 0.15, "cancel_p": 0.06, "sub_ok_p": 0
               "attempts": [1, 2, 3], "max_polls": 12, "nmax": 9})
 # exhaustive tiny scope: every tiny graph dry (throttle 0, 1, 2) and real (throttle 0, 1) under
 # the ideal scheduler answers (every queried job absent or FINISHED), cancel request at every poll
-TINY = {"depth_quick": 4, "depth_thorough": 5, "graphs_quick": 6,
+TINY = {"depth_quick": 5, "depth_thorough": 4, "graphs_quick": 6,
         "cfgs": [{"throttle": 0, "attempts": 1, "dry": True}, {"throttle": 1, "attempts": 2, "dry": True},
                  {"throttle": 2, "attempts": 1, "dry": True},
                  {"throttle": 0, "attempts": 1, "dry": False}, {"throttle": 1, "attempts": 1, "dry": False}],
-        "enum": {"q": True, "cancel": True, "subs": False, "kinds": ["absent", "FINISHED"]},
+        "enum": {"q": False, "cancel": True, "subs": False, "kinds": ["absent", "FINISHED"]},
         "limit_quick": 8000, "limit_thorough": 120000}
+# thorough: additionally every query code (OK / NOJOBS / ERROR) at every poll -- a dry run must not
+# even look at it (13 567 histories at depth 4 = length g + 1 polls for the 3-node graphs)
+TINY_THOROUGH = dict(TINY, enum=dict(TINY["enum"], q=True))
 
 
 def run(ck):
     BIAS.n = 0
-    return X.run_exec(ck, 17, BIAS, tiny=TINY)
+    return X.run_exec(ck, 17, BIAS, tiny=TINY if ck.tier == "quick" else TINY_THOROUGH)
 
 
 def replay(ck, path):
